@@ -95,18 +95,16 @@ func unquoteAll(s []string) ([]string, error) {
 func showHist(samples []string, n int) string {
 	var sb strings.Builder
 	sb.WriteString("[")
-	lim := n
-	if lim > 14 {
-		lim = 14
-	}
-	for i := 0; i < lim; i++ {
+	for i := 0; i < n; i++ {
+		if n > 16 && i == 6 {
+			fmt.Fprintf(&sb, " …(%d elements in all)…", n)
+			i = n - 9
+			continue
+		}
 		if i > 0 {
 			sb.WriteString(" ")
 		}
 		sb.WriteString(strconv.QuoteToASCII(samples[i]))
-	}
-	if n > lim {
-		fmt.Fprintf(&sb, " …(%d samples)", n)
 	}
 	sb.WriteString("]")
 	return sb.String()
@@ -377,7 +375,33 @@ func runSubKey(cs *Case, samples []string, st *stats) *fail {
 
 // ---------------------------------------------------------------- table
 
+// trimMark starts a history element that is not a sample but a Trim with the
+// predicate named after it (table only): samples, trim, more samples ...
+const trimMark = "\x1eTRIM:"
+
+func trimStep(raw string) (spec string, ok bool) {
+	if strings.HasPrefix(raw, trimMark) {
+		return raw[len(trimMark):], true
+	}
+	return "", false
+}
+
+func hasTrimSteps(samples []string) bool {
+	for _, s := range samples {
+		if strings.HasPrefix(s, trimMark) {
+			return true
+		}
+	}
+	return false
+}
+
 func feedTable(cs *Case, agg *aggregation.TableAggregator, raw string) {
+	if spec, isTrim := trimStep(raw); isTrim {
+		if pred, ok := trimPredicate(spec); ok {
+			agg.Trim(pred)
+		}
+		return
+	}
 	if cs.Direct {
 		p, inc := splitDirect(raw)
 		agg.SampleItem(p[0], p[1], inc)
@@ -430,25 +454,29 @@ func checkTableFull(agg *aggregation.TableAggregator, ref *refTable, e *env) *fa
 			}
 		}
 		var sum int64
-		for c := range ref.cols {
+		valCols := ref.cols
+		if ref.everCols != nil {
+			valCols = ref.everCols // after a trim: also the columns that are gone must read 0
+		}
+		for c := range valCols {
 			if r.Value(c) != m[c] {
 				return &fail{class: "cell", msg: fmt.Sprintf("cell (col %s, row %s): Value()=%d, fold gives %d", run.Q(c), run.Q(r.Name()), r.Value(c), m[c])}
 			}
 			sum += m[c]
 		}
-		if r.Sum() != sum {
+		if _, tainted := ref.taintRow[r.Name()]; !tainted && r.Sum() != sum {
 			return &fail{class: "row-sum", msg: fmt.Sprintf("row %s: Sum()=%d, sum of its cells is %d", run.Q(r.Name()), r.Sum(), sum)}
 		}
 	}
 	var grand int64
 	for c := range ref.cols {
 		want := ref.colTotal(c)
-		if agg.ColTotal(c) != want {
+		if _, tainted := ref.taintCol[c]; !tainted && agg.ColTotal(c) != want {
 			return &fail{class: "col-total", msg: fmt.Sprintf("column %s: ColTotal()=%d, sum of its cells is %d", run.Q(c), agg.ColTotal(c), want)}
 		}
 		grand += want
 	}
-	if agg.Sum() != grand || grand != ref.grand() {
+	if len(ref.taintCol) == 0 && (agg.Sum() != grand || grand != ref.grand()) {
 		return &fail{class: "grand-total", msg: fmt.Sprintf("Sum()=%d, sum of the column totals is %d, sum of all cells is %d", agg.Sum(), grand, ref.grand())}
 	}
 	if mn, mx, ok := ref.minmax(); ok {
@@ -495,9 +523,28 @@ func runTable(cs *Case, samples []string, st *stats, e *env) *fail {
 		return r.feed(raw)
 	}
 	colRunning := map[string]int64{}
+	interleaved := hasTrimSteps(samples)
 	for i, raw := range samples {
 		feedTable(cs, agg, raw)
-		col, ok := feedRef(ref, raw)
+		spec, isTrim := trimStep(raw)
+		var col string
+		var ok bool
+		if isTrim {
+			pred, good := trimPredicate(spec)
+			if !good {
+				return &fail{class: "setup", msg: "unknown trim predicate " + spec}
+			}
+			ref.applyTrim(pred)
+			st.trim++
+			for k := range colRunning {
+				delete(colRunning, k)
+			}
+			for c := range ref.cols {
+				colRunning[c] = ref.colTotal(c)
+			}
+		} else {
+			col, ok = feedRef(ref, raw)
+		}
 		if ok {
 			var inc int64 = 1
 			if cs.Direct {
@@ -511,10 +558,19 @@ func runTable(cs *Case, samples []string, st *stats, e *env) *fail {
 		st.prefix++
 		st.fed++
 		var f *fail
-		if fullAt(cs, n, len(samples)) {
+		// the sample right after a trim is compared in full as well (stale references to trimmed rows / columns)
+		afterTrim := i > 0 && strings.HasPrefix(samples[i-1], trimMark)
+		if isTrim || afterTrim || fullAt(cs, n, len(samples)) {
 			st.full++
 			f = checkTableFull(agg, ref, e)
+			if f != nil && ref.trims > 0 {
+				f.class = "interleaved-" + f.class
+			}
 		} else {
+			_, colTainted := ref.taintCol[col]
+			if colTainted {
+				ok = false
+			}
 			switch {
 			case agg.ParseErrors() != ref.errs:
 				f = &fail{class: "parse-errors", msg: fmt.Sprintf("ParseErrors()=%d, fold gives %d", agg.ParseErrors(), ref.errs)}
@@ -528,11 +584,11 @@ func runTable(cs *Case, samples []string, st *stats, e *env) *fail {
 		}
 		if f != nil {
 			f.n = n
-			f.msg = fmt.Sprintf("table (delim %s) after prefix %d of %s: %s", cs.Delim, n, showHist(samples, n), f.msg)
+			f.msg = fmt.Sprintf("table (delim %s) after prefix %d of %s (%d trims so far): %s", cs.Delim, n, showHist(samples, n), ref.trims, f.msg)
 			return f
 		}
 	}
-	for p := 0; p < cs.Perms; p++ {
+	for p := 0; p < cs.Perms && !interleaved; p++ { // a history with trims in it is not order-independent
 		order := permute(cs, p, samples)
 		a2 := aggregation.NewTable(delim)
 		for _, raw := range order {
@@ -1047,8 +1103,8 @@ func (r *runner) exec(cs *Case, samples []string) bool {
 	}
 	full := *cs
 	full.Samples = quoteAll(samples)
-	if f.n > 0 && f.n <= len(samples) && cs.Full {
-		// the failing prefix alone reproduces it (every prefix was compared in full): report the minimal case
+	if f.n > 0 && f.n <= len(samples) {
+		// the failing prefix alone reproduces it (the last element of a history is always compared in full): report the minimal case
 		full.Samples = quoteAll(samples[:f.n])
 		full.Trim, full.Perms, full.PermSeed = nil, 0, 0
 	}
